@@ -837,6 +837,15 @@ func runC11(c *Check) {
 				}, 2) {
 					okMark = true
 				}
+				// … or of a local list built index-aligned with it in the same function
+				if p.DeepContains(k, func(t *Term) bool {
+					if t.Op != "index" || t.Args[0].V == nil || batchTxs.V == nil || t.Args[0].Ctx == nil || t.Args[0].Ctx.Fn == nil {
+						return false
+					}
+					return alignedValues(p, t.Args[0].Ctx.Fn, []ssa.Value{batchTxs.V}, []ssa.Value{t.Args[0].V})
+				}, 2) {
+					okMark = true
+				}
 			}
 			if okMark {
 				c.OK("C11-R1", "Reaper ⟂ marked=submitted", fn, posOf(g, isPut), "the marked transactions are the elements of the submitted slice", true)
@@ -963,7 +972,15 @@ func runC11(c *Check) {
 			if x.Op == "extract" {
 				x = x.Args[0]
 			}
+			if x.Op == "invoke" && x.Name == "(context.Context).Err" {
+				return false // a stop request is not a fault (see isStop)
+			}
 			return x.Op == "invoke" || x.Op == "dyncall"
+		}
+		// isStop: the return is chosen by the node's own stop request (ctx.Err() != nil)
+		isStop := func(f Fact) bool {
+			t := f.Cond
+			return f.Pol && t.Op == "bin" && t.Name == "!=" && t.Args[1].Name == "nil" && t.Args[0].Op == "invoke" && t.Args[0].Name == "(context.Context).Err"
 		}
 		calleeErr := func(f Fact) (*ssa.Call, bool) {
 			t := f.Cond
@@ -992,7 +1009,7 @@ func runC11(c *Check) {
 			}
 			facts := FactSet(g.NecessaryEdgesFrom(arrived, tgt))
 			verdictOK, why := false, ""
-			var cd *Fact
+			var cd, stopFact *Fact
 			for i := range facts {
 				if isInfra(facts[i]) {
 					verdictOK, why = true, "behind an infrastructure error: "+trunc(facts[i].String(), 80)
@@ -1028,6 +1045,11 @@ func runC11(c *Check) {
 								if contentDep(f) || strings.Contains(f.Cond.String(), "batchData") {
 									fine = false
 								}
+								if isStop(f) {
+									fine = false
+									ff := f
+									stopFact = &ff
+								}
 							}
 							if !fine {
 								allFine = false
@@ -1041,9 +1063,12 @@ func runC11(c *Check) {
 			}
 			if !verdictOK {
 				for i := range facts {
-					if contentDep(facts[i]) {
+					if contentDep(facts[i]) || isStop(facts[i]) {
 						cd = &facts[i]
 					}
+				}
+				if cd == nil && stopFact != nil {
+					cd = stopFact
 				}
 				if cd == nil {
 					verdictOK, why = true, "not behind any condition that depends on the batch"
@@ -1053,7 +1078,7 @@ func runC11(c *Check) {
 			if verdictOK {
 				c.OK("C11-R3", fnShort(step)+" ⟂ return-without-save", fn, p.InstrPos(x.In), why, true)
 			} else {
-				c.Bad("C11-R3", "production-step ⟂ taken-batch-dropped ⟂ "+genericName(shortCond(cd.Cond, cd.Pol)), fn, p.InstrPos(x.In), "after a batch with transactions was taken from the sequencer the step can return without saving a block, on a condition that depends on the batch's content ("+trunc(cd.String(), 120)+"): the batch has left the sequencer's queue and its transactions are lost", g.DescribePath(path))
+				c.Bad("C11-R3", "production-step ⟂ taken-batch-dropped ⟂ "+genericName(shortCond(cd.Cond, cd.Pol)), fn, p.InstrPos(x.In), "after a batch with transactions was taken from the sequencer the step can return without saving a block, on a condition that depends on the batch's content or on the node's own stop request ("+trunc(cd.String(), 120)+"): the batch has left the sequencer's queue and its transactions are lost", g.DescribePath(path))
 			}
 		}
 		if n3 == 0 {
@@ -1200,9 +1225,25 @@ func alignedResults(p *Prog, fn *ssa.Function, si, hi int) bool {
 	if fn == nil || fn.Blocks == nil {
 		return false
 	}
+	var sv, hv []ssa.Value
+	for _, b := range fn.Blocks {
+		if ret, ok := b.Instrs[len(b.Instrs)-1].(*ssa.Return); ok && si < len(ret.Results) && hi < len(ret.Results) {
+			sv = append(sv, spilledResult(ret, si))
+			hv = append(hv, spilledResult(ret, hi))
+		}
+	}
+	return alignedValues(p, fn, sv, hv)
+}
+
+// alignedValues: the slices sv and hv (values of fn) are built index-aligned: every append that
+// feeds the one sits in the same block as an append feeding the other, and the element appended
+// to hv derives from the element appended to sv.
+func alignedValues(p *Prog, fn *ssa.Function, sv, hv []ssa.Value) bool {
+	if fn == nil || fn.Blocks == nil {
+		return false
+	}
 	ctx := &Ctx{Fn: fn}
-	// the appends feeding a returned value
-	feeds := func(idx int) []*ssa.Call {
+	feeds := func(vs []ssa.Value) []*ssa.Call {
 		var out []*ssa.Call
 		seen := map[ssa.Value]bool{}
 		var walk func(v ssa.Value, d int)
@@ -1223,14 +1264,12 @@ func alignedResults(p *Prog, fn *ssa.Function, si, hi int) bool {
 				}
 			}
 		}
-		for _, b := range fn.Blocks {
-			if ret, ok := b.Instrs[len(b.Instrs)-1].(*ssa.Return); ok && idx < len(ret.Results) {
-				walk(spilledResult(ret, idx), 0)
-			}
+		for _, v := range vs {
+			walk(v, 0)
 		}
 		return out
 	}
-	sa, ha := feeds(si), feeds(hi)
+	sa, ha := feeds(sv), feeds(hv)
 	if len(sa) == 0 || len(sa) != len(ha) {
 		return false
 	}
@@ -1286,8 +1325,13 @@ func ruleBasedHandOffCompletes(c *Check, rule string) {
 			if !ok || op != "==" {
 				return false
 			}
-			isLeft := func(x *Term) bool { s := x.unconv().String(); return strings.HasPrefix(s, "len(") && strings.Contains(s, "Transactions") }
-			isCount := func(x *Term) bool { return strings.Contains(x.String(), "SubmittedCount") || strings.Contains(x.String(), "SubmitWithHelpers(") }
+			isLeft := func(x *Term) bool {
+				s := x.unconv().String()
+				return strings.HasPrefix(s, "len(") && strings.Contains(s, "Transactions")
+			}
+			isCount := func(x *Term) bool {
+				return strings.Contains(x.String(), "SubmittedCount") || strings.Contains(x.String(), "SubmitWithHelpers(")
+			}
 			return (isLeft(a) && isCount(b)) || (isLeft(b) && isCount(a))
 		})
 		inst := fnShort(fn) + " ⟂ nil only after the whole batch was accepted"
